@@ -802,7 +802,7 @@ func genClientScript(r *rand.Rand, trace, length int, profile string) *clScript 
 			sc.Ops = append(sc.Ops, clOp{Name: "Close", Mode: "wait", N: n, Plan: cplan})
 		default:
 			// wait-mode commands are used on a socket with nothing outstanding (rarely otherwise)
-			if outstanding == 0 || r.Intn(15) == 0 {
+			if outstanding == 0 || r.Intn(6) == 0 {
 				addWaitOp()
 			}
 		}
